@@ -15,7 +15,7 @@ RULE = (
     "us, data equal; get_by_id agrees; single insert returns the id later listed. (b) ownership: after mutating the caller's event objects (nested data in place, "
     "timestamp, duration, keys), every event handed out by get/get_by_id, and the dicts handed out by metadata()/buckets() (incl. nested data), all reads equal "
     "the pre-mutation snapshot. Non-trivial = some event has a sub-ms instant or non-zero sub-ms duration AND some data value is a nested container. "
-    "Extra phase 'bulk': bulk inserts of 500..2000 uniformly random instants/durations per backend, fidelity only."
+    "Extra phase 'bulk': bulk inserts of 500..2000 uniformly random instants/durations per backend, fidelity only; 'bulk_huge': one batch of 10 500 (thorough: 70 000) events on the two SQL backends."
 )
 ASSUMPTIONS = [
     "only id-less insertion (the property says 'inserted without an id')",
@@ -226,7 +226,27 @@ def extra_phases(tier, seed, jobs):
     n = 500 if tier == "quick" else 2000
     for w in range(jobs):
         tasks.append({"seed": seed * 1000 + w, "backend": stores.BACKENDS[w % 3], "batches": batches, "n": n})
-    return [("bulk", "phase_bulk", tasks)]
+    # one batch far larger than anything the repository's tests insert at once (limits on SQL variables, compound statements, pages)
+    big = 10_500 if tier == "quick" else 70_000
+    huge = [{"seed": seed * 77 + k, "backend": be, "n": big} for k, be in enumerate(("sqlite", "peewee"))]
+    return [("bulk", "phase_bulk", tasks), ("bulk_huge", "phase_bulk_huge", huge)]
+
+
+def phase_bulk_huge(task):
+    st_ = Stats()
+    specs = _bulk_specs(random.Random(task["seed"]), task["n"])
+    try:
+        _check_bulk(task["backend"], specs)
+    except Violation as v:
+        st_.failure = {"kind": "bulk_seeded", "case": task, "message": v.msg}
+        return st_
+    st_.evals = len(specs)
+    st_.classes[task["backend"] + "_one_batch_of"] = len(specs)
+    return st_
+
+
+def replay_bulk_seeded(task):
+    _check_bulk(task["backend"], _bulk_specs(random.Random(task["seed"]), task["n"]))
 
 
 def _bulk_specs(rnd, n):
